@@ -1598,3 +1598,16 @@ def _(c):
             mag = d.scale(D_US).add(tod)
             c.rec('C05', 'assembly of IntervalDT: +/-(D*day + time of day, fraction carried)', st.num.eq0(cnt.sub(mag)) or st.num.eq0(cnt.add(mag)), f"{cnt!r}")
     c.rec('C05', f"assembly of {tname}: some path returns Ok", n_ok > 0)
+
+
+# ----------------------------------------------------------------------------- C19: the picture lexer
+@contract(r"^format::FormatParser::<'_>::next$")
+def _(c):
+    from .lexer import lexer_contract
+    lexer_contract(c)
+
+
+@contract(r'^format::Formatter::try_new::<&str>$')
+def _(c):
+    from .lexer import try_new_contract
+    try_new_contract(c)
